@@ -56,6 +56,15 @@ func (g *Gen) stdModel(v ssa.Value, name string, c *ssa.CallCommon, in ssa.Instr
 		used()
 		g.setVal(v, g.specApp("has_suffix", st, arg(0), arg(1)))
 		return true
+	case "strings.TrimSuffix":
+		used()
+		x, suf := arg(0), arg(1)
+		has := g.define(v.Name()+".has", SBool, g.specApp("has_suffix", st, x, suf))
+		r := g.havocVal(v)
+		g.assume(app("=>", not(has), app("=", r.S, x.S)))
+		g.assume(app("=>", has, and(app("=", app("slen", r.S), app("-", app("slen", x.S), app("slen", suf.S))),
+			fmt.Sprintf("(forall ((i!q Int)) (! (=> (and (<= 0 i!q) (< i!q (slen %s))) (= (select (sarr %s) i!q) (select (sarr %s) i!q))) :pattern ((select (sarr %s) i!q))))", r.S, r.S, x.S, r.S))))
+		return true
 	case "strings.HasPrefix":
 		used()
 		g.setVal(v, g.specApp("has_prefix", st, arg(0), arg(1)))
